@@ -1,14 +1,14 @@
 //! Bounded stand-in for C14 (analysis data is the fixpoint of make/merge over each class) — NOT a proof.
 //! host: src/egraph/mod.rs
 //! functions: EGraph::update_analysis
-//! Four analyses whose merge is a semilattice join: MaxDepth (make = min(8, 1 + max of the children's data), merge = max:
+//! Five analyses whose merge is a semilattice join: Leaves (the set of numbers occurring in the class's terms, merge = union), MaxDepth (make = min(8, 1 + max of the children's data), merge = max:
 //! an INCREASING analysis, for which a cyclic class must climb to the cap), MinSize (make = 1 + sum of the children's data, merge = min),
 //! Depth (make = 1 + max of the children's data, merge = min), ConstFold (make evaluates add/mul/sub/number over
 //! Z/2^32 when every child has a value, merge = the defined one; its modify hook adds the constant to the class).
 //! After EVERY operation, for EVERY live class: (1) the stored datum equals the join of make over all e-nodes of the
 //! class computed from the children's CURRENT data; (2) it equals the least fixpoint computed independently by plain
 //! iteration over `enodes` (for MinSize this is also compared with the extractor's best cost).
-//! Bound: 9 hand-written union histories + 100 (deep: 2000) generated histories per analysis: a term of depth <= 3 over var/lam/app/add/mul/sub/g/
+//! Bound: 11 hand-written union histories + 100 (deep: 2000) generated histories per analysis: a term of depth <= 3 over var/lam/app/add/mul/sub/g/
 //! numbers with 3 slot names, all subterms inserted; then either <= 3 rounds of a fixed-seed subset of 12 rules that
 //! hold in Z/2^32 (ring laws, beta with let, rules that make slots redundant) or 6 unions of ring-law instances.
 //! also-with-features: checks
@@ -47,6 +47,14 @@ impl Analysis<AL> for MaxDepth {
     type Data = u64;
     fn make(eg: &EGraph<AL, Self>, n: &AL) -> u64 { let mut s = 0u64; for c in n.applied_id_occurrences() { s = s.max(*eg.analysis_data(c.id)); } (s + 1).min(DEPTH_CAP) }
     fn merge(l: u64, r: u64) -> u64 { l.max(r) }
+}
+/// a SET-valued analysis (merge = union): the numbers that occur in some term of the class.  Its datum grows exactly when a class
+/// gains a term with a new leaf - also in the middle of `handle_pending`, which is what exposed defect F17 (c354467)
+#[derive(Default)] pub struct Leaves;
+impl Analysis<AL> for Leaves {
+    type Data = std::collections::BTreeSet<u32>;
+    fn make(eg: &EGraph<AL, Self>, n: &AL) -> Self::Data { let mut s = Self::Data::new(); if let AL::Number(x) = n { s.insert(*x); } for c in n.applied_id_occurrences() { s.extend(eg.analysis_data(c.id).iter().cloned()); } s }
+    fn merge(l: Self::Data, r: Self::Data) -> Self::Data { l.union(&r).cloned().collect() }
 }
 #[derive(Default)] pub struct ConstFold;
 fn fold_node(n: &AL, get: &dyn Fn(Id) -> Option<u32>) -> Option<u32> {
@@ -118,6 +126,8 @@ trait Ref: Analysis<AL> + Default + 'static where Self::Data: std::fmt::Debug {
     fn ref_make(n: &AL, get: &dyn Fn(Id) -> Option<Self::Data>) -> Option<Self::Data>;
     /// strictly better (the iteration keeps the better one)
     fn better(new: &Self::Data, old: &Self::Data) -> bool;
+    /// how the reference iteration combines a class's value so far with a newly made one (default: the better one replaces it)
+    fn ref_join(_old: &Self::Data, new: Self::Data) -> Self::Data { new }
     /// what the modify hook must have established for class i (None = nothing to check)
     fn hook_done(_eg: &EGraph<AL, Self>, _i: Id) -> Option<String> { None }
 }
@@ -135,6 +145,12 @@ impl Ref for MaxDepth {
     const NAME: &'static str = "MaxDepth";
     fn ref_make(n: &AL, get: &dyn Fn(Id) -> Option<u64>) -> Option<u64> { let mut s = 0u64; for c in n.applied_id_occurrences() { if let Some(d) = get(c.id) { s = s.max(d); } } Some((s + 1).min(DEPTH_CAP)) }
     fn better(new: &u64, old: &u64) -> bool { new > old }
+}
+impl Ref for Leaves {
+    const NAME: &'static str = "Leaves";
+    fn ref_make(n: &AL, get: &dyn Fn(Id) -> Option<Self::Data>) -> Option<Self::Data> { let mut s = Self::Data::new(); if let AL::Number(x) = n { s.insert(*x); } for c in n.applied_id_occurrences() { if let Some(d) = get(c.id) { s.extend(d); } } Some(s) }
+    fn better(new: &Self::Data, old: &Self::Data) -> bool { !new.is_subset(old) }
+    fn ref_join(old: &Self::Data, new: Self::Data) -> Self::Data { old.union(&new).cloned().collect() }
 }
 impl Ref for ConstFold {
     const NAME: &'static str = "ConstFold";
@@ -163,7 +179,7 @@ fn check_analysis<N: Ref>(eg: &EGraph<AL, N>, desc: &str) -> Result<(), String> 
             let r2 = &reference;
             let Some(m) = N::ref_make(&n, &|c: Id| r2.get(&eg.find_id(c)).cloned()) else { continue };
             let upd = match reference.get(&i) { None => true, Some(old) => N::better(&m, old) };
-            if upd { reference.insert(i, m); changed = true; }
+            if upd { let v = match reference.get(&i) { None => m, Some(old) => N::ref_join(old, m) }; reference.insert(i, v); changed = true; }
         }}
         if !changed { break; }
     }
@@ -225,6 +241,10 @@ fn hand_written() -> Vec<(Vec<&'static str>, Vec<(usize, usize)>)> {
         // a class merged into the class of one of its own parents, the child being the side that dies (defect fixed by 56fe5e8)
         (vec!["0", "(g 0)", "(mul (g 0) (g 0))", "(sub (g 0) (g 0))"], vec![(0, 1)]),
         (vec!["(var $1)", "(g (var $1))", "(mul (g (var $1)) (g (var $2)))", "(sub (g (var $1)) (g (var $1)))", "(lam $1 (g (var $1)))"], vec![(1, 0)]),
+        // an e-node that is a usage of its OWN class and has a second child whose class dies (defect F17, fixed by c354467: the
+        // stale shape stayed on the worklist and rebuild panicked; needs a datum that changes at that moment: Leaves)
+        (vec!["0", "(add 0 (g 2))", "(g 2)", "(g 3)", "(g (g 3))", "(mul (g 3) (g 3))", "(sub (g 3) 4)"], vec![(0, 1), (2, 3)]),
+        (vec!["(var $1)", "(add (var $1) (g 2))", "(g 2)", "(g 3)", "(g (g 3))", "(mul (g 3) (g 3))", "(sub (g 3) 4)"], vec![(0, 1), (2, 3)]),
         // a cyclic class
         (vec!["(g (add (var $1) 1))", "(add (var $1) 1)", "(mul (g (add (var $1) 1)) 2)"], vec![(0, 1)]),
     ]
@@ -260,6 +280,7 @@ pub fn run(only: &[String]) -> Vec<String> {
     run_for::<MinSize>(&mut fails, deep);
     run_for::<Depth>(&mut fails, deep);
     run_for::<MaxDepth>(&mut fails, deep);
+    run_for::<Leaves>(&mut fails, deep);
     run_for::<ConstFold>(&mut fails, deep);
     fails
 }
